@@ -934,14 +934,55 @@ def _native_layouts(tier="quick", seed=0):
         if b and not bad:
             bad = "layout %s: %s" % (specs, b)
     record("C13.native.generated_layouts", bad, "%d random placeholder populations: mirror property holds" % N)
-    # notes slide
+    # notes slide: the notes master's placeholders in every sampled z-order, and with a duplicated cloneable placeholder
+    import copy
+
+    from pptx.enum.shapes import PP_PLACEHOLDER as P
+
+    bad = None
+    arrangements = [None, "reversed", "dup_body", "dup_slide_number_first"] + ["perm%d" % i for i in range(6 if tier == "quick" else 40)]
+    for arr in arrangements:
+        prs = Presentation()
+        s = prs.slides.add_slide(prs.slide_layouts[1])
+        nm = prs.notes_master
+        spTree = nm.shapes._spTree
+        sps = [sp for sp in spTree.iter_ph_elms()]
+        if arr is not None:
+            for sp in sps:
+                spTree.remove(sp)
+            if arr == "reversed":
+                order = list(reversed(sps))
+            elif arr == "dup_body":
+                body = [sp for sp in sps if sp.ph_type == P.BODY][0]
+                order = sps + [copy.deepcopy(body)]
+            elif arr == "dup_slide_number_first":
+                num = [sp for sp in sps if sp.ph_type == P.SLIDE_NUMBER][0]
+                order = [copy.deepcopy(num)] + sps
+            else:
+                order = list(sps)
+                rnd.shuffle(order)
+            for sp in order:
+                spTree.append(sp)
+        evals += 1
+        try:
+            ns = s.notes_slide
+            want = [ph for ph in nm.placeholders if ph.element.ph_type in (P.SLIDE_IMAGE, P.BODY, P.SLIDE_NUMBER)]
+            got = list(ns.placeholders)
+            key = lambda q: (q.element.ph_type, q.element.ph_idx, q.element.ph_orient, q.element.ph_sz)
+            if [key(w) for w in want] != [key(g) for g in got]:
+                bad = bad or "notes master arranged %s: notes slide placeholders %s, the master's cloneable ones are %s" % (arr, [g.element.ph_type for g in got], [w.element.ph_type for w in want])
+            names = [g.name for g in got]
+            if len(set(names)) != len(names):
+                bad = bad or "notes master arranged %s: notes placeholder names not unique %s" % (arr, names)
+        except Exception as e:
+            bad = bad or "notes master arranged %s: notes slide creation raised %r" % (arr, e)
+    record("C13.native.notes_slide_mirrors_master_in_any_order", bad, "notes slide mirrors the cloneable placeholders of the notes master in the master's order")
     bad = None
     prs = Presentation()
     s = prs.slides.add_slide(prs.slide_layouts[1])
     try:
         ns = s.notes_slide
         nm = prs.notes_master
-        from pptx.enum.shapes import PP_PLACEHOLDER as P
 
         want = [ph for ph in nm.placeholders if ph.element.ph_type in (P.SLIDE_IMAGE, P.BODY, P.SLIDE_NUMBER)]
         got = list(ns.placeholders)
